@@ -1,12 +1,13 @@
 /-
   Cross-model agreement, cluster "Document queries and motions" (src/prompt_toolkit/document.py).
 
-  Gen module: the hypothesis `SpOk` (`\s` matches no `[a-zA-Z0-9_]`) of the C08 / C01 word theorems is a
-  decidable side condition on the regenerated `\s` table (`Ptk.Gen.reSpaceRanges`), re-decided on every
-  build; with it the theorems hold unconditionally at the class every driver instantiates.
+  Gen module: a decidable side condition on the regenerated `\s` table (`Ptk.Gen.reSpaceRanges`), re-decided
+  on every build: `\s` matches no `[a-zA-Z0-9_]` (`SpOk Ptk.Gen.reSpace`).  Until the C08 / C01 models were
+  repaired (they tested `\s` before the word class, the regex alternation tests the word class first) this
+  was the hypothesis of their word theorems; those theorems are unconditional now, and the fact remains as
+  the reason why the old order never showed in a correspondence run.
 -/
 import Ptk.Props.AgreeDocWords
-import Ptk.Props.AgreeDocBrk
 import Ptk.Gen.PyChars
 namespace Ptk.AgreeDoc
 open Ptk.Py
@@ -15,8 +16,7 @@ open Ptk.Py
 theorem gen_reSpace_ranges_ok : ∀ r ∈ Ptk.Gen.reSpaceRanges, r.2 < 48 ∨ 122 < r.1 := by decide
 
 /-- the `\s` class the drivers of C01 / C02 / C08 / C09 instantiate (`Ptk.Gen.reSpace`, regenerated from
-    the running interpreter on every run) satisfies the hypothesis `SpOk` of the C08 / C01 agreement
-    theorems: `\s` matches no `[a-zA-Z0-9_]` -/
+    the running interpreter on every run) matches no `[a-zA-Z0-9_]` -/
 theorem spOk_gen : SpOk Ptk.Gen.reSpace := by
   intro c hw
   have hr : 48 ≤ c.toNat ∧ c.toNat ≤ 122 := by
@@ -30,46 +30,5 @@ theorem spOk_gen : SpOk Ptk.Gen.reSpace := by
   have := gen_reSpace_ranges_ok r hr1
   simp only [Bool.and_eq_true, decide_eq_true_eq] at hr2
   omega
-
-theorem spOkB_gen (big : Bool) : SpOkB Ptk.Gen.reSpace big := Or.inr spOk_gen
-
-
-/-! ### the C08 / C01 word theorems at the `\s` class every driver uses (no hypothesis left) -/
-
-/-- document.py::Document.find_start_of_previous_word — `C08` vs `C02` at `Ptk.Gen.reSpace` -/
-theorem findStartOfPreviousWord_08_gen (d : C08.Doc) (count : Nat) (big : Bool) :
-    C08.findStartOfPreviousWord Ptk.Gen.reSpace d count big
-      = C02.findStartOfPreviousWord Ptk.Gen.reSpace (of08 d) (count : Int) big :=
-  findStartOfPreviousWord_08 _ d count big (Or.inr spOk_gen)
-
-/-- document.py::Document.find_next_word_ending — `C08` vs `C02` at `Ptk.Gen.reSpace` -/
-theorem findNextWordEnding_08_gen (d : C08.Doc) (count : Nat) (big : Bool) :
-    C08.findNextWordEnding Ptk.Gen.reSpace d count big
-      = C02.findNextWordEnding Ptk.Gen.reSpace (of08 d) false (count : Int) big :=
-  findNextWordEnding_08 _ d count big (Or.inr spOk_gen)
-
-/-- document.py::Document.find_previous_word_ending — `C08` vs `C02` at `Ptk.Gen.reSpace` -/
-theorem findPreviousWordEnding_08_gen (d : C08.Doc) (count : Nat) (big : Bool) :
-    C08.findPreviousWordEnding Ptk.Gen.reSpace d count big
-      = C02.findPreviousWordEnding Ptk.Gen.reSpace (of08 d) (count : Int) big :=
-  findPreviousWordEnding_08 _ d count big (Or.inr spOk_gen)
-
-/-- document.py::Document.find_next_word_beginning — `C08` vs `C02` at `Ptk.Gen.reSpace` (count ≥ 1) -/
-theorem findNextWordBeginning_08_gen (d : C08.Doc) (count : Nat) (big : Bool) (h1 : 1 ≤ count) :
-    C08.findNextWordBeginning Ptk.Gen.reSpace d count big
-      = C02.findNextWordBeginning Ptk.Gen.reSpace (of08 d) (count : Int) big :=
-  findNextWordBeginning_08 _ d count big (Or.inr spOk_gen) h1
-
-/-- document.py::Document.find_next_word_ending — `C01.findNextWordEnding` vs `C02` at `Ptk.Gen.reSpace` -/
-theorem findNextWordEnding_01_gen (b : C01.Buf) :
-    (C01.findNextWordEnding Ptk.Gen.reSpace b).map (fun (n : Nat) => (n : Int))
-      = C02.findNextWordEnding Ptk.Gen.reSpace (of01 b) false 1 false :=
-  findNextWordEnding_01 _ spOk_gen b
-
-/-- document.py::Document.find_boundaries_of_current_word — `C08` vs `C02` at `Ptk.Gen.reSpace` -/
-theorem wordBoundaries_08_gen (d : C08.Doc) (big trailing : Bool) :
-    C08.wordBoundaries Ptk.Gen.reSpace d big trailing
-      = C02.wordBoundaries Ptk.Gen.reSpace (of08 d) big false trailing :=
-  wordBoundaries_08 _ d big trailing (spOkB_gen big)
 
 end Ptk.AgreeDoc
